@@ -23,11 +23,14 @@ FrameOk(r) ==
 
 SrvOk(r) == IF r.cut < r.total THEN r.err /\ ~r.wrote101 ELSE ~r.err /\ r.wrote101
 CliOk(r) == IF r.cut < r.total THEN r.err ELSE ~r.err
+\* the debug wrapper around the dialer: same verdict, one report, of exactly the bytes that arrived
+CliDebugOk(r) == CliOk(r) /\ r.calls = 1 /\ r.reportedOK
 WriteOk(r) == r.writes >= r.failAt => r.err
 
 Ok(r) == CASE r.k = "frame" -> FrameOk(r)
            [] r.k = "srv" -> SrvOk(r)
            [] r.k = "cli" -> CliOk(r)
+           [] r.k = "clidebug" -> CliDebugOk(r)
            [] r.k \in {"srvwrite", "cliwrite"} -> WriteOk(r)
            [] OTHER -> FALSE
 
